@@ -262,10 +262,20 @@ def _big_stack():
         pass
 
 
-def run_cases(exe, cases, env=None, timeout=600, per_case_restart=True, extra_args=(), max_deaths=200):
+def run_cases(exe, cases, env=None, timeout=600, per_case_restart=True, extra_args=(), max_deaths=200, jobs=1):
     """Feed the case lines to exe; return a list with one output line per case.
     If the process dies (crash, sanitizer abort, or the library calling exit()), the case whose
-    output is missing is marked 'DIED rc=<rc> <last stderr line>' and the run continues after it."""
+    output is missing is marked 'DIED rc=<rc> <last stderr line>' and the run continues after it.
+    jobs > 1: the list is cut into contiguous shards run by that many processes at once (every case line is
+    self-contained: the harness re-initialises the library per line), results in the original order."""
+    if jobs > 1 and len(cases) >= 4 * jobs:
+        from concurrent.futures import ThreadPoolExecutor
+        k = (len(cases) + jobs - 1) // jobs
+        shards = [cases[a:a + k] for a in range(0, len(cases), k)]
+        with ThreadPoolExecutor(max_workers=jobs) as ex:
+            outs = list(ex.map(lambda sh_: run_cases(exe, sh_, env=env, timeout=timeout, per_case_restart=per_case_restart,
+                                                     extra_args=extra_args, max_deaths=max_deaths), shards))
+        return [o for part in outs for o in part]
     results = []
     i = 0
     deaths = 0
@@ -299,6 +309,8 @@ def run_cases(exe, cases, env=None, timeout=600, per_case_restart=True, extra_ar
         i += got
         if i >= n:
             break
+        if rc == -999 and got > 0:
+            continue               # the batch ran out of time after making progress: go on from the first unanswered case
         # process died on case i
         why = ""
         for l in err.splitlines():
